@@ -1,5 +1,6 @@
 import Flowjaxv.Proofs.Params
 import Flowjaxv.Proofs.Wrappers
+import Flowjaxv.Proofs.FamiliesGen
 /-!
 # C11 — constrained parameters stay valid for every unconstrained value
 
@@ -364,5 +365,105 @@ theorem reject_instance :
     uniformRejects [((1 : ℝ), (1 : ℝ))] = true := by
   refine ⟨(ParamsPf.softplusRejects_iff _).mpr (by norm_num), (ParamsPf.softplusRejects_iff _).mpr (by norm_num), ?_, by simp [uniformRejects]⟩
   rw [Bool.eq_false_iff, Ne, ParamsPf.softplusRejects_iff]; norm_num
+
+/-! ### The REGENERATED constructors `Affine.__init__`, `Scale.__init__`, `_StandardStudentT.__init__` (`Gen/FamiliesGen.lean`)
+
+The constrained leaves on the generated constructors: whatever arrays are passed (any shapes, any values the constructor accepts)
+and whatever raw array is stored afterwards (training), every entry of the unwrapped `scale` / `df` is strictly positive; the
+generated `Affine.__init__` is, entry by entry, the hand model `Ctors.affine` (= `Params.affineInit`). -/
+section FamiliesGen
+open Fw FamGenPf Vec
+
+/-- `Affine`: for every object the generated constructor returns, and for every raw array stored in its place -/
+theorem gen_affine_scale_pos (loc scale : NArr ℝ) (d : AffineObj ℝ) (h : GenFam.Affine.init loc scale = some d)
+    (shape : List ℕ) (raw : List ℝ) :
+    (∀ σ ∈ (Gen.Wr.BijectionReparam.unwrap d.scale).data, 0 < σ) ∧
+    (∀ σ ∈ (Gen.Wr.BijectionReparam.unwrap ({ d.scale with arr := ⟨shape, raw⟩ } : Reparam ℝ)).data, 0 < σ) := by
+  obtain ⟨_, _, rfl⟩ := affine_init_inv h
+  exact ⟨unwrap_raw_pos _ _, unwrap_raw_pos shape raw⟩
+
+/-- `Scale` likewise (the generated `Scale.__init__` never raises in the model: `BijectionReparam`'s validity check is C11's
+`reject_iff_invalid_scale`) -/
+theorem gen_scale_scale_pos (scale : NArr ℝ) (shape : List ℕ) (raw : List ℝ) :
+    (∀ σ ∈ (Gen.Wr.BijectionReparam.unwrap (GenFam.Scale.init scale).scale).data, 0 < σ) ∧
+    (∀ σ ∈ (Gen.Wr.BijectionReparam.unwrap ({ (GenFam.Scale.init scale).scale with arr := ⟨shape, raw⟩ } : Reparam ℝ)).data, 0 < σ) :=
+  ⟨unwrap_raw_pos _ _, unwrap_raw_pos shape raw⟩
+
+/-- `_StandardStudentT.df`: positive for every accepted argument and for every raw array -/
+theorem gen_df_pos (df : NArr ℝ) (d : Fw.StdStudentT ℝ) (h : GenFam.StandardStudentT.init df = some d) (shape : List ℕ) (raw : List ℝ) :
+    (∀ ν ∈ (Gen.Wr.BijectionReparam.unwrap d.df).data, 0 < ν) ∧
+    (∀ ν ∈ (Gen.Wr.BijectionReparam.unwrap ({ d.df with arr := ⟨shape, raw⟩ } : Reparam ℝ)).data, 0 < ν) := by
+  by_cases hany : (List.map (fun x => decide (x ≤ 0)) df.data).any id = true
+  · simp [GenFam.StandardStudentT.init, toArray, errorIf, leZero, hany] at h
+  · simp only [GenFam.StandardStudentT.init, toArray, errorIf, leZero, hany, Bool.false_eq_true, if_false, Option.bind_some,
+      Option.some.injEq] at h
+    subst h
+    exact ⟨unwrap_raw_pos _ _, unwrap_raw_pos shape raw⟩
+
+/-- the generated `_StandardStudentT.__init__` raises iff some entry of `df` is `≤ 0` (`eqx.error_if`) -/
+theorem gen_df_rejects_iff (df : NArr ℝ) : GenFam.StandardStudentT.init df = none ↔ ∃ ν ∈ df.data, ν ≤ 0 := by
+  have key : (List.map (fun x => decide (x ≤ 0)) df.data).any id = true ↔ ∃ ν ∈ df.data, ν ≤ 0 := by simp
+  rw [← key]
+  by_cases hany : (List.map (fun x => decide (x ≤ 0)) df.data).any id = true
+  · simp [GenFam.StandardStudentT.init, toArray, errorIf, leZero, hany]
+  · simp [GenFam.StandardStudentT.init, toArray, errorIf, leZero, hany]
+
+/-- **generated `Affine.__init__` = the hand constructor `Ctors.affine`**, for every pair of shapes that broadcast: the methods of
+the unwrapped object are `Ctors.affine loc[i] scale[i]` entry by entry; the declared shape is the broadcast shape; it raises
+exactly when the shapes do not broadcast -/
+theorem gen_affine_ctor_eq (loc scale : NArr ℝ) :
+    (∀ s, bcast2 loc.shape scale.shape = some s →
+      ∃ d, GenFam.Affine.init loc scale = some d ∧ d.shape = s ∧ d.loc = broadcastTo loc s ∧
+        d.toBij = Bij.elementwise (List.zipWith (fun l σ => (Ctors.affine l σ).toBij) (broadcastTo loc s).data (broadcastTo scale s).data)) ∧
+    (bcast2 loc.shape scale.shape = none → GenFam.Affine.init loc scale = none) :=
+  ⟨fun s h => ⟨_, affine_init_eq loc scale h, rfl, rfl, affine_toBij _ _ _⟩, affine_init_none loc scale⟩
+
+/-- scalars: `unwrap(Affine(l, σ))` is `Ctors.affine l σ` = `Params.affineInit l σ`; a positive `σ` is reproduced -/
+theorem gen_affine_ctor_scalar (l σ : ℝ) :
+    ∃ d, GenFam.Affine.init (NArr.scalar l) (NArr.scalar σ) = some d ∧ d.shape = [] ∧
+      d.toBij = Bij.elementwise [(Ctors.affine l σ).toBij] ∧ Ctors.affine l σ = Params.affineInit l σ ∧
+      (0 < σ → (Gen.Wr.BijectionReparam.unwrap d.scale).data = [σ]) := by
+  refine ⟨_, affine_init_eq _ _ (bcast2_self []), rfl, affine_toBij _ _ _, rfl, fun h => ?_⟩
+  rw [reparam_unwrap_data]
+  show [Ctors.softplusUnwrap (Ctors.softplusRaw σ)] = [σ]
+  rw [show Ctors.softplusUnwrap (Ctors.softplusRaw σ) = σ from Leaves.softplus_softplus_inv h]
+
+/-- generated `Scale.__init__` = `Ctors.scale`, entry by entry, any shape -/
+theorem gen_scale_ctor_eq (scale : NArr ℝ) :
+    (GenFam.Scale.init scale).shape = scale.shape ∧
+      (GenFam.Scale.init scale).toBij = Bij.elementwise (scale.data.map (fun σ => (Ctors.scale σ).toBij)) :=
+  ⟨rfl, scale_toBij _ _⟩
+
+/-- generated `Loc.__init__`: stores the array and its shape -/
+theorem gen_loc_ctor_eq (loc : NArr ℝ) :
+    (GenFam.Loc.init loc).shape = loc.shape ∧ (GenFam.Loc.init loc).loc = loc ∧
+      (GenFam.Loc.init loc).toBij = Bij.elementwise (loc.data.map (fun l => (Ctors.loc l).toBij)) :=
+  ⟨rfl, rfl, rfl⟩
+
+/-- `VmapMixture.log_normalized_weights` on the generated constructor: whatever positive weights are passed and whatever non-empty raw
+array is stored afterwards, `exp` of the unwrapped leaf is a probability vector -/
+theorem gen_mixture_weights_normalised {X K : Type} (dist : VDist X K ℝ) (w : NArr ℝ) (m : MixtureObj X K ℝ)
+    (h : GenFam.VmapMixture.init dist w = some m) (hne : w.data ≠ []) (raw : List ℝ) (hr : raw ≠ []) :
+    (m.unwrap.log_normalized_weights.map Real.exp).sum = 1 ∧
+    (((MixtureObj.unwrap { m with log_normalized_weights := { m.log_normalized_weights with args := raw } }).log_normalized_weights).map
+        Real.exp).sum = 1 := by
+  by_cases hany : (List.map (fun x => decide (x ≤ 0)) w.data).any id = true
+  · simp [GenFam.VmapMixture.init, errorIf, leZero, hany] at h
+  · simp only [GenFam.VmapMixture.init, errorIf, leZero, hany, Bool.false_eq_true, if_false, Option.bind_some, Option.some.injEq] at h
+    subst h
+    simp only [MixtureObj.unwrap, Gen.Wr.Lambda.unwrap, Gen.mixtureLogNormalizedWeights, jnp_logSoftmax_eq]
+    exact ⟨FamiliesPf.logSoftmax_normalised (by simpa [Gen.mixtureRawInit] using hne), FamiliesPf.logSoftmax_normalised hr⟩
+
+/-- non-vacuity: a negative-free broadcasting constructor call and a rejected `df` -/
+theorem gen_ctor_instance :
+    (∃ d, GenFam.Affine.init (⟨[3], [0, 1, 2]⟩ : NArr ℝ) ⟨[2, 1], [1, 2]⟩ = some d ∧ d.shape = [2, 3] ∧
+      ∀ σ ∈ (Gen.Wr.BijectionReparam.unwrap d.scale).data, 0 < σ) ∧
+    GenFam.StandardStudentT.init (⟨[2], [3, 0]⟩ : NArr ℝ) = none := by
+  constructor
+  · obtain ⟨d, hd, hs, _⟩ := (gen_affine_ctor_eq (⟨[3], [0, 1, 2]⟩ : NArr ℝ) ⟨[2, 1], [1, 2]⟩).1 [2, 3] (by decide)
+    exact ⟨d, hd, hs, (gen_affine_scale_pos _ _ d hd [] []).1⟩
+  · rw [gen_df_rejects_iff]; exact ⟨0, by simp, le_rfl⟩
+
+end FamiliesGen
 
 end C11
